@@ -114,7 +114,7 @@ def run(ctx):
                 if cl[0] != "closure":
                     why.append("fold function is %s" % show(cl)[:60])
                 else:
-                    ops = folds.closure_op(prog, cl)
+                    ops = folds.closure_op(prog, cl, inline=pol)
                     if not ops or len(ops) != 1:
                         why.append("fold closure not understood: %s" % ops)
                     else:
